@@ -133,8 +133,10 @@ inline EP mutate(pbt::Ctx& c, const EP& original, const Gamma& G, std::string& o
         size_t empty = c.chance(2, 3) ? last : first + static_cast<size_t>(c.ipick(0, static_cast<int>(last - first)));
         size_t bad = first + static_cast<size_t>(c.ipick(0, static_cast<int>(last - first) - 1)); if (bad >= empty) ++bad;
         n->kids[empty] = mk(TID::LIT_EMPTYSET);
-        n->kids[bad] = mkName(TID::ID_LOCAL, "q9");
-        opName = "empty-set-next-to-undeclared"; return root->kids[0];
+        // the sibling is either undeclared (must be rejected) or a well-typed term of another shape (may be accepted; evaluation must stay safe)
+        const bool undeclared = c.coin();
+        n->kids[bad] = undeclared ? mkName(TID::ID_LOCAL, "q9") : c.coin() ? mkInt(1) : mk(TID::NT_TUPLE, {mkInt(1), mkInt(2)});
+        opName = undeclared ? "empty-set-next-to-undeclared" : "empty-set-next-to-other-shape"; return root->kids[0];
       }
       default: {  // replace a term by a copy of another term of the same tree (scrambles types and scopes)
         if (slots.size() < 2) break;
